@@ -70,6 +70,14 @@ func c16Polluters() []c16Prog {
 	add("string-atoi-literal", "输出以“12*10^3”（转换数值）\n")
 	add("deep-structures", "令甲 = 【1，【2，【3，【4】】】】\n令乙 = 甲\n以乙#2#2（后增：9）\n输出 甲\n")
 	add("input-missing", "输入缺失变量\n输出 1\n")
+	// library calls left unfinished: a generation / parse / constructor that fails half way (after
+	// part of its output exists), with and without a handler
+	add("json-generate-fails-midway-handled", "导入《@JSON》\n如何某事？\n\t输出 1\n如何试？\n\t输出（生成JSON：【“密码” = “secret-of-P”，“列” = 【1，2，3】，“方法” = 某事】）\n\n\t拦截异常：\n\t\t输出 0\n输出（试）\n")
+	add("json-generate-fails-midway-uncaught", "导入《@JSON》\n定义型：\n\t其数 = 1\n输出（生成JSON：【“甲” = “leak-1”，“乙” = 【“丙” = （新建型）】】）\n")
+	add("json-generate-fails-nonfinite", "导入《@JSON》\n令大 = 1*10^308 * 10\n输出（生成JSON：【“甲” = “leak-2”，“乙” = 【1，大】】）\n\n拦截异常：\n\t输出 0\n")
+	add("json-parse-fails-midway", "导入《@JSON》\n输出（解析JSON：“{\\\"甲\\\":[1,2,{\\\"乙\\\":\\\"leak-3\\\"},”）\n\n拦截异常：\n\t输出 0\n")
+	add("http-resp-content-unrepresentable", "导入《@样品库》\n如何某事？\n\t输出 1\n令应 =（新建HTTP响应：200、【“甲” = “leak-4”，“乙” = 某事】）\n\n拦截异常：\n\t输出 0\n")
+	add("file-read-missing", "导入《@文件》\n输出（读取文件：“/不存在/的/文件”）\n\n拦截异常：\n\t输出 0\n")
 	// the input-variable path (ExecVarInputText, as the playground handler uses it)
 	pg := func(n, vi, src string) { ps = append(ps, c16Prog{name: n, src: src, libs: true, kind: "pg", varInput: vi}) }
 	pg("pg-varinput-数值-自增", "乙 = 以数值（自增：5）", "输入乙\n输出乙\n")
@@ -103,6 +111,8 @@ func c16Probes() []c16Prog {
 	add("undefined-type", "输出（新建型）\n")
 	add("json-parse", "导入《@JSON》\n输出（解析JSON：“{\\\"a\\\":[1,2,{\\\"b\\\":null}],\\\"c\\\":\\\"d\\\"}”）\n")
 	add("json-generate", "导入《@JSON》\n输出（生成JSON：【“a” = 【1，2】，“b” = 空，“c” = 【=】】）\n")
+	add("json-generate-small", "导入《@JSON》\n输出（生成JSON：【“甲” = 1，“乙” = “二”】）\n")
+	add("json-generate-in-list", "导入《@JSON》\n输出【（生成JSON：【“k” = 1】），（生成JSON：【“列” = 【】】）】\n")
 	add("http-resp-new-text", "导入《@样品库》\n令应 =（新建HTTP响应：200、“t”）\n输出【应之状态码，应之头部，应之内容】\n")
 	add("http-resp-new-json", "导入《@样品库》\n令应 =（新建HTTP响应：200、【“a” = 1】）\n输出【应之状态码，应之头部，应之内容】\n")
 	add("http-resp-new-other", "导入《@样品库》\n令应 =（新建HTTP响应：404、空）\n输出【应之状态码，应之头部，应之内容】\n")
